@@ -5,7 +5,7 @@ A_GEN = "cases are generated from VERIF_SEED; nothing is claimed about inputs th
 
 PROPS = {}
 NOT_APPLICABLE = {}
-HOOK_COMMITS = []
+HOOK_COMMITS = ["2f15b1b", "606c23c", "653ad06"]
 
 PROPS["C19"] = dict(
     title="Log-domain addition is accurate, commutative and monotone",
@@ -331,4 +331,32 @@ PROPS["C10"] = dict(
                                                                    "objects_returned_config": 100, "grammars_loaded_into_decoder": 50, "short_decodes": 50,
                                                                    "words_accepted": 20, "texts_accepted": 20, "fsgs_built_from_jsgf": 100}),
     assumptions=[A_SAN, A_GEN],
+)
+
+PROPS["C17"] = dict(
+    title="Damaged acoustic-model files are rejected without memory errors", level="fault_enumeration",
+    technique="fault enumeration over the bundled model files (one damaged file per load attempt) with the real loaders running under ASan/UBSan; "
+              "half of the attempts through exact-size heap buffers (hook H3) so that the first byte read past the file is reported, half through the real mmap path",
+    level_text="fault_enumeration: for en-us and fr-fr and each of mdef, means, variances, sendump, transition_matrices, feat_params.json (and the "
+               "feature_transform used with -lda, en-us): file missing; empty; truncated at every 5th (quick) / every (thorough) byte of the header "
+               "region (text header + 64 bytes) and at the checksum, page boundaries and random payload offsets; every 32-bit word of the first 64 bytes "
+               "after the header (where the counts and dimensions live) replaced by 0, 1, 2, 65536, 2^31-1, 2^31, 2^32-1, +1, -1; byte-order magic "
+               "swapped / garbage; checksum flipped; text header lines damaged. decoder_init() must return NULL with no sanitizer report, signal, "
+               "assertion or exit(); every 16th case (and after every acceptance) the intact model is loaded in the same process and must decode "
+               "the bundled recording as usual.",
+    level_note="a fault whose damaged file is still a well-formed model of the same shape (flagged 'neutral' by the enumerator: optional "
+               "feat_params.json absent, a repeated version line) may load; it must then decode the reference utterance correctly. "
+               "Corruption of payload floats that no loader validates is out of the statement's scope and not generated.",
+    rule="one case = one (model, file, fault, access mode); the enumeration is fixed (random payload offsets come from a fixed stream), the quick tier runs each fault in one "
+         "access mode (VERIF_SEED flips which one and varies the mmap configuration flag), the thorough tier in both; distinct = (model, file, fault index, mode).",
+    exhaustive=False,
+    exhaustive_note="header-region truncation points and count words are enumerated completely in the thorough tier; payload offsets are sampled",
+    stages=[dict(harness="h_model", flavor="asan", quick=-1, thorough=-1)],
+    floor=dict(min_evaluations=1000, min_distinct=1000, counters={"cases_heap_backed": 500, "cases_mmap": 500, "intact_reloads_checked": 50,
+                                                                "file_mdef": 100, "file_means": 100, "file_variances": 100, "file_sendump": 100,
+                                                                "file_transition_matrices": 100, "file_feat_params.json": 20, "file_feature_transform": 50,
+                                                                "refused_truncate_header": 300, "refused_truncate_payload": 100, "refused_field:n_phone": 10, "refused_field:n_mgau": 20,
+                                                                "refused_field:n_tmat": 10, "refused_field:rows": 10, "refused_field:sseq_size": 10, "refused_checksum": 5, "refused_magic": 10,
+                                                                "refused_missing": 10, "refused_empty": 10, "loaded_control": 13}),
+    assumptions=[A_SAN, "only single-file damage is enumerated; combinations of damaged files are not explored"],
 )
